@@ -209,12 +209,12 @@ def run(ctx):
     gen = random.Random(ctx.seed + 17)
     W = ctx.pick(8, 14)
     for width in range(1, W + 1):
-        for rep in range(ctx.pick(3, 30)):
+        for rep in range(ctx.pick(3, 300)):
             cases.append({"seed": gen.randrange(2 ** 30), "n": gen.randint(1, 4), "maxlen": 25, "width": width, "eol": "\n", "final_newline": gen.random() < 0.8,
                           "index": "library" if rep % 3 else "harness", "max_iv": 2000, "genome": rep % 2 == 0})
-    for rep in range(ctx.pick(24, 200)):
+    for rep in range(ctx.pick(24, 2000)):
         cases.append({"seed": gen.randrange(2 ** 30), "n": gen.randint(1, 3), "maxlen": 25, "width": gen.randint(1, W), "eol": "\r\n", "final_newline": gen.random() < 0.6, "index": "library", "max_iv": 2000})
-    for rep in range(ctx.pick(6, 60)):
+    for rep in range(ctx.pick(6, 400)):
         cases.append({"seed": gen.randrange(2 ** 30), "n": gen.randint(2, 6), "maxlen": 400, "width": gen.choice([60, 70, 80]), "eol": "\n", "final_newline": True, "index": "library", "max_iv": 600, "genome": True})
     for c in ctx.mine(cases):
         ctx.run_case(check_file, c)
